@@ -608,6 +608,71 @@ theorem old_p2plibdat_panicked :
       ({ metadata := some { chainId := "c", height := 2, time := 6, lastDataHash := trustedData.hash }, txs := [[2]] } : Data).encode
       = .accepted := by decide +kernel
 
+/-! ### the P2P data store: the clause is NOT met (recorded finding `C03/p2p-data-store/unsigned-data-accepted`)
+
+C03 also speaks of what a node "stores … serves to light clients".  The data sync service stores and serves every
+item the library entry accepts.  `types.Data` is unsigned by design and `Data.Validate()` asks for metadata only,
+so anybody's data enters the P2P DATA store of a full node and is served on.  The full statement — an accepted
+item is the data some proposer-signed header the node holds commits to — is false; what holds is kept as
+`_partial`.  A repair needs signed P2P data, or the data sync service validating items against already verified
+headers: a protocol change, not a patch. -/
+
+/-- `d` is the data the header `sh` commits to -/
+def DataOfHeader (sh : SignedHeader) (d : Data) : Prop :=
+  sh.header.dataHash = d.daCommitment ∧ sh.header.height = (d.metadata.getD {}).height
+
+/-- every data item the P2P library entry accepts is the data of one of the (proposer-signed) headers the node
+holds -/
+def C03_p2pdata_full : Prop :=
+  ∀ (hdrs : List SignedHeader) (tr : Option Data) (bs : Bytes), p2pLibDataAdmit tr bs = .accepted →
+    ∃ d, Data.decode bs = some d ∧ ∃ sh ∈ hdrs, DataOfHeader sh d
+
+/-- third-party data: metadata present, linked to the trusted item, transactions nobody signed -/
+def junkData : Data :=
+  { metadata := some { chainId := "c", height := 2, time := 6, lastDataHash := trustedData.hash }, txs := [[0x66, 0x6f, 0x72, 0x67, 0x65, 0x64]] }
+
+/-- kernel-evaluated: the entry accepts it, against a trusted item and against none -/
+theorem junk_p2p_data_accepted :
+    p2pLibDataAdmit (some trustedData) junkData.encode = .accepted ∧ p2pLibDataAdmit none junkData.encode = .accepted ∧
+    Data.decode junkData.encode = some junkData := by decide +kernel
+
+theorem C03_p2pdata_full_fails : ¬ C03_p2pdata_full := by
+  intro h
+  obtain ⟨d, hd, sh, hm, hdo, _⟩ := h [genuineNext] none junkData.encode junk_p2p_data_accepted.2.1
+  rw [junk_p2p_data_accepted.2.2] at hd
+  have hd' : d = junkData := (Option.some.inj hd).symm
+  subst hd'
+  have hs : sh = genuineNext := by simpa using hm
+  subst hs
+  revert hdo
+  decide +kernel
+
+/-- **what does hold for P2P data** (`_partial`): an accepted item decodes and carries its metadata (nothing
+downstream dereferences nil), the entry never panics, and it is linked to the trusted item it was verified
+against.  That junk data is never APPLIED — it stays out of the chain, the state and the block store — is the
+sync loop's comparison with the proposer-signed header: `Spec.C02.C02_junk_data_harmless` (after /repo 4bb2ed2). -/
+theorem C03_p2pdata_partial (tr : Option Data) (bs : Bytes) (h : p2pLibDataAdmit tr bs = .accepted) :
+    ∃ d, Data.decode bs = some d ∧ d.metadata.isSome = true ∧ ∀ t, tr = some t → libVerifyData t d = true := by
+  unfold p2pLibDataAdmit libValidateData at h
+  cases hd : Data.decode bs with
+  | none => rw [hd] at h; simp at h
+  | some d =>
+    rw [hd] at h
+    simp only at h
+    cases hm : d.metadata.isSome with
+    | false => simp [hm] at h
+    | true =>
+      refine ⟨d, rfl, hm, ?_⟩
+      intro t ht
+      subst ht
+      simp only [hm, Bool.not_true, Bool.false_eq_true, ↓reduceIte] at h
+      split at h
+      · assumption
+      · simp at h
+example : ∃ d, Data.decode junkData.encode = some d ∧ d.metadata.isSome = true ∧
+    ∀ t, some trustedData = some t → libVerifyData t d = true :=
+  C03_p2pdata_partial _ _ junk_p2p_data_accepted.1
+
 /-! ## rejections that hold without any hypothesis -/
 
 /-! ### the binding itself: near misses -/
